@@ -128,4 +128,11 @@ class BillingSufficiencyCriteria'''),
     {'id': 'c10-day-counts-on-period-end', 'property': 'C10', 'kind': 'break', 'expect_rule': 'R10.2', 'expect_key': 'period-to-next-timestamp', 'file': 'opendsm/eemeter/common/data_processor_utilities.py', 'old': '    timedeltas = (index[1:] - index[:-1]).append(pd.TimedeltaIndex([pd.NaT]))', 'new': '    timedeltas = pd.TimedeltaIndex([pd.NaT]).append(index[1:] - index[:-1])'},
     {'id': 'c10-day-counts-hours-per-day', 'property': 'C10', 'kind': 'break', 'expect_rule': 'R10.2', 'expect_key': 'period-to-next-timestamp', 'file': 'opendsm/eemeter/common/data_processor_utilities.py', 'old': '    timedelta_days = timedeltas.total_seconds() / (60 * 60 * 24)', 'new': '    timedelta_days = timedeltas.total_seconds() / (60 * 60 * 12)'},
     {'id': 'c10-benign-day-counts-constant', 'property': 'C10', 'kind': 'benign', 'file': 'opendsm/eemeter/common/data_processor_utilities.py', 'old': '    timedelta_days = timedeltas.total_seconds() / (60 * 60 * 24)', 'new': '    seconds_per_day = 86400\n    timedelta_days = timedeltas.total_seconds() / seconds_per_day'},
+    # R10.5 (rules/daycompletion.py): the frame the criteria count days on has one row per calendar day
+    {'id': 'c10-days-matched-normalised-one-side', 'property': 'C10', 'kind': 'break', 'expect_rule': 'R10.5', 'expect_key': 'day-key-mismatch', 'file': 'opendsm/eemeter/models/daily/data.py',
+     'old': '            ~all_days_df.index.strftime("%Y%m%d").isin(\n                meter_series.index.strftime("%Y%m%d")\n            )', 'new': '            ~all_days_df.index.isin(meter_series.index.normalize())'},
+    {'id': 'c10-days-matched-on-dayofyear', 'property': 'C10', 'kind': 'break', 'expect_rule': 'R10.5', 'expect_key': 'day-key:dayofyear', 'file': 'opendsm/eemeter/models/daily/data.py',
+     'old': '            ~all_days_df.index.strftime("%Y%m%d").isin(\n                meter_series.index.strftime("%Y%m%d")\n            )', 'new': '            ~all_days_df.index.dayofyear.isin(meter_series.index.dayofyear)'},
+    {'id': 'c10-benign-days-matched-normalised-both-sides', 'property': 'C10', 'kind': 'benign', 'file': 'opendsm/eemeter/models/daily/data.py',
+     'old': '            ~all_days_df.index.strftime("%Y%m%d").isin(\n                meter_series.index.strftime("%Y%m%d")\n            )', 'new': '            ~all_days_df.index.normalize().isin(meter_series.index.normalize())'},
 ]
